@@ -52,6 +52,29 @@ Record params := mkParams {
 
 Inductive cls := LIF | ALIF | GLIF1 | GLIF2 | QIF | Izhikevich | EIF | AdEx.
 
+(* hand-transcribed: the argtest checks of the eight constructors (linear.py:61-67, 232, 245-251, 532, 545-552;
+   nonlinear.py:70-78, 259, 281-289, 463-473, 653, 675-685): the documented hyperparameter domains.
+   A constructor raises ValueError iff this is false. *)
+Definition all_pos (l : list T) : bool := forallb (fun x => gtb N x (zero N)) l.
+Definition ctor_common (p : params) : bool :=
+  gtb N (step_time p) (zero N) && geb N (refrac_t p) (zero N) && gtb N (time_constant p) (zero N)
+  && neb N (resistance p) (zero N).
+Definition ctor_ok (c : cls) (p : params) : bool :=
+  ctor_common p &&
+  match c with
+  | LIF | GLIF1 => ltb N (rest_v p) (thresh_v p) && ltb N (reset_v p) (thresh_v p)
+  | ALIF => ltb N (rest_v p) (thresh_v p) && ltb N (reset_v p) (thresh_v p) && all_pos (tc_adaptation p)
+  | GLIF2 => ltb N (rest_v p) (thresh_v p) && all_pos (tc_adaptation p)
+  | QIF => ltb N (rest_v p) (crit_v p) && leb N (crit_v p) (thresh_v p) && gtb N (affinity p) (zero N)
+           && ltb N (reset_v p) (thresh_v p)
+  | Izhikevich => ltb N (rest_v p) (crit_v p) && leb N (crit_v p) (thresh_v p) && gtb N (affinity p) (zero N)
+           && ltb N (reset_v p) (thresh_v p) && all_pos (tc_adaptation p)
+  | EIF => ltb N (rest_v p) (rheobase_v p) && leb N (rheobase_v p) (thresh_v p) && gtb N (sharpness p) (zero N)
+           && ltb N (reset_v p) (thresh_v p)
+  | AdEx => ltb N (rest_v p) (rheobase_v p) && leb N (rheobase_v p) (thresh_v p) && gtb N (sharpness p) (zero N)
+           && ltb N (reset_v p) (thresh_v p) && all_pos (tc_adaptation p)
+  end.
+
 (* one cell = (voltage, refrac) of one neuron for one batch sample *)
 Definition cell := (T * T)%type.
 (* what the thresholding kernels return per element: (spikes, voltages, refracs) *)
